@@ -354,6 +354,27 @@ def family_A(r):
     return out
 
 
+def family_R(r):
+    """Many runs: 40 runs of length 1..3 (a scan, search or table over the runs is exercised well beyond 2-3 entries),
+    once from the type minimum upwards and once straddling zero / ending at the upper limit."""
+    out = []
+    for k, start in enumerate((lo(r), (-60 if REPRS[r][1] else 10), hi(r) - 199)):
+        vals = []
+        x = start
+        for i in range(40):
+            ln = 1 + (i * 7 + k) % 3
+            for j in range(ln):
+                if x + j <= hi(r):
+                    vals.append(x + j)
+            x += ln + 1 + (i % 2)
+        vals = [v for v in vals if lo(r) <= v <= hi(r)]
+        if REPRS[r][0] == 8:
+            vals = vals[:120]
+        perm = vals[len(vals) // 2:] + vals[:len(vals) // 2][::-1]
+        out.append(make_decl(r, perm, salt=20 + k, tag={"family": "R", "runs": len(EnumDecl(r, [Variant("X%d" % i, lit=str(v)) for i, v in enumerate(vals)]).runs())}))
+    return out
+
+
 def boundary_values(decl):
     """B(E,R) of DESIGN.md §4 clipped to the repr: every constant generated comparisons can mention,
     both neighbours of every run boundary, and truncation / sign aliases of members."""
